@@ -28,7 +28,7 @@ ANCHORS = [("leuvenmapmatching/matcher/base.py", "BaseMatcher._build_node_path")
            ("leuvenmapmatching/matcher/base.py", "LatticeColumn.values_all"),
            ("leuvenmapmatching/matcher/base.py", "LatticeColumn.prune"),
            ("leuvenmapmatching/matcher/base.py", "BaseMatching.update")]
-FLOORS = {"linked_tie_cases": 100, "linked_tie_cases_string_labels": 60, "cases_compared_across_processes": 800, "cases_with_two_final_candidates": 400, "permutations_judged": 1500,
+FLOORS = {"symmetric_fork_cases": 100, "linked_tie_cases": 100, "linked_tie_cases_string_labels": 60, "cases_compared_across_processes": 800, "cases_with_two_final_candidates": 400, "permutations_judged": 1500,
           "final_column_with_nonemitting_layer": 40, "exact_tie_in_final_column": 50, "string_label_cases": 300, "mirror_loop_cases": 300, "diamond_cases": 300, "diamond_cases_with_nonemitting_on_path": 150, "nonemitting_state_with_exactly_tied_predecessors": 100}
 ASSUMPTIONS = ["hash-seed clause: canonical results (returned states, index, keys and log-probabilities of the best path) must be IDENTICAL across processes",
                "permutation clause: index and best probability equal (1e-9); paths may differ only through an exact tie: equal totals, or equal probability of the two alternatives at the first position where the paths diverge (what follows - e.g. the trailing non-emitting states after an early stop - is a consequence of that choice)"]
@@ -149,7 +149,41 @@ def gen_linked_tie_case(rng):
     return {"map": m, "trace": tr, "cfg": cfg, "unique": rng.random() < 0.5, "linked_tie": True}
 
 
+def gen_fork_case(rng):
+    """a one-way stem that forks symmetrically into 2-3 branches; an observation on the stem just before the fork makes the
+    fork edges exactly equally probable and the LEAST probable candidates of that column, so the tie group at the pruning
+    boundary reaches the end of the candidate list; the trace then continues into one branch."""
+    u = rng.choice([1.0, 0.5, 2.0])
+    nb = rng.choice([2, 2, 3])
+    pts = {"A": (0.0, 0.0), "B": (10.0, 0.0)}
+    edges = [("A", "B")]
+    offs = [10.0, -10.0, 0.0][:nb] if nb == 3 else [10.0, -10.0]
+    for j, o in enumerate(offs):
+        pts[f"C{j}"] = (20.0, o)
+        pts[f"D{j}"] = (40.0, o)
+        edges += [("B", f"C{j}"), (f"C{j}", f"D{j}")]
+    names = list(pts)
+    ids = rng.sample(range(1, 90), len(names))
+    lab = dict(zip(names, ids if rng.random() < 0.5 else ["N%d" % v for v in ids]))
+    rng.shuffle(edges)
+    nodes = [[lab[k], [v[1] * u, v[0] * u]] for k, v in pts.items()]   # (y, x)
+    rng.shuffle(nodes)
+    m = {"nodes": nodes, "edges": [[lab[a], lab[b]] for a, b in edges], "latlon": False, "kind": "fork"}
+    tgt = rng.randrange(len(offs))
+    tr = [[0.0, 2.0 * u], [0.0, rng.choice([9.0, 8.0, 9.5]) * u], [offs[tgt] * u, 35.0 * u]]
+    if rng.random() < 0.4:
+        tr.insert(2, [offs[tgt] * u * 0.5, 15.0 * u])
+    cfg = gen.gen_cfg(rng, families=("distance", "simple", "newsonkrumm"), ne=(rng.random() < 0.3), width=True, cut=False)
+    cfg["width"] = rng.choice([1, 2, 2, 3])
+    cfg["obs_noise"] = 2.0 * u
+    cfg["max_dist"] = rng.choice([5.0, 8.0, 12.0]) * u
+    cfg["max_dist_init"] = cfg["max_dist"]
+    return {"map": m, "trace": tr, "cfg": cfg, "unique": rng.random() < 0.5, "fork": True}
+
+
 def gen_case(rng, i, tier):
+    if i % 12 == 3:
+        return gen_fork_case(rng)
     if i % 12 == 7:
         return gen_linked_tie_case(rng)
     if i % 6 == 1:
@@ -266,6 +300,8 @@ def check_case(ctx, case):
         ctx.count("diamond_cases")
         if any(x.obs_ne for x in (mt.lattice_best or [])):
             ctx.count("diamond_cases_with_nonemitting_on_path")
+    if case.get("fork"):
+        ctx.count("symmetric_fork_cases")
     if case.get("linked_tie"):
         ctx.count("linked_tie_cases")
         if any(isinstance(l, str) for l, _ in case["map"]["nodes"]):
